@@ -71,11 +71,44 @@ def _nonneg(t):
     return False
 
 
+class SymText:
+    """text rendering of a symbolic integer: hex(v) / str(v), possibly with the first `skip` characters sliced off.
+    hex(v)[2:] of a non-negative v is exactly its canonical lower-case hexadecimal numeral."""
+
+    def __init__(self, kind, value, skip):
+        self.kind, self.value, self.skip = kind, value, skip
+
+    def __repr__(self):
+        return "SymText(%s, %r, skip=%d)" % (self.kind, self.value, self.skip)
+
+
 class NativeNamespace:
     """stand-in for a module / object whose attributes the analysed code reads (values may be symbolic)"""
 
     def __init__(self, **kw):
         self.__dict__.update(kw)
+
+
+def _fresh_copy(v):
+    """containers are re-created for every re-execution (the analysed code may mutate its arguments)"""
+    if isinstance(v, list):
+        return [_fresh_copy(x) for x in v]
+    if isinstance(v, dict):
+        return {k: _fresh_copy(x) for k, x in v.items()}
+    if isinstance(v, tuple):
+        return tuple(_fresh_copy(x) for x in v)
+    return v
+
+
+class _Closure:
+    def __init__(self, ex, node, env, globs):
+        self.ex, self.node, self.env, self.globs = ex, node, env, globs
+
+    def __call__(self, *args):
+        env = dict(self.env)
+        for a, v in zip(self.node.args.args, args):
+            env[a.arg] = v
+        return self.ex.expr(self.node.body, env, self.globs)
 
 
 class PyRaise(Exception):
@@ -104,6 +137,7 @@ class Executor:
         self.loop_bound = loop_bound
         self.assumptions = list(assumptions)
         self.obligations = []      # (path condition, formula that must hold, description)
+        self.opaque_constructors = set()   # class names whose construction is recorded, not executed
 
     # ---------------------------------------------------------------------------------------------- driver
     def run(self, fname, args, global_env=None):
@@ -115,11 +149,11 @@ class Executor:
             self.decisions = list(prefix)
             self.pos = 0
             self.pc = []
-            self.genv = dict(global_env or {})
+            self.genv = {k: _fresh_copy(v) for k, v in (global_env or {}).items()}
             self.path_obligations = []
             try:
                 try:
-                    r = self.call_function(fname, list(args))
+                    r = self.call_function(fname, [_fresh_copy(a) for a in args])
                     outcome = ("return", r)
                 except PyRaise as e:
                     outcome = ("raise", e.name)
@@ -355,6 +389,8 @@ class Executor:
             if isinstance(e.slice, ast.Slice):
                 lo = self.expr(e.slice.lower, env, globs) if e.slice.lower else None
                 hi = self.expr(e.slice.upper, env, globs) if e.slice.upper else None
+                if isinstance(base, SymText) and hi is None and isinstance(lo, int) and lo >= 0:
+                    return SymText(base.kind, base.value, base.skip + lo)
                 if is_sym(lo) or is_sym(hi) or is_sym(base):
                     raise Unmodelled("symbolic slice")
                 return base[lo:hi]
@@ -387,6 +423,8 @@ class Executor:
                 return getattr(base, e.attr)
             except AttributeError:
                 raise PyRaise("AttributeError")
+        if isinstance(e, ast.Lambda):
+            return _Closure(self, e, dict(env), globs)
         if isinstance(e, ast.ListComp):
             if len(e.generators) != 1:
                 raise Unmodelled("nested comprehension")
@@ -429,6 +467,20 @@ class Executor:
             if isinstance(op, ast.In):
                 return r
             return SymBool(z3.Not(r.t)) if isinstance(r, SymBool) else (not r)
+        if isinstance(a, list) and isinstance(b, list) and isinstance(op, (ast.Eq, ast.NotEq)):
+            if len(a) != len(b):
+                return isinstance(op, ast.NotEq)
+            terms = []
+            for x, y in zip(a, b):
+                c = self.compare(ast.Eq(), x, y)
+                if isinstance(c, SymBool):
+                    terms.append(c.t)
+                elif not c:
+                    return isinstance(op, ast.NotEq)
+            if not terms:
+                return isinstance(op, ast.Eq)
+            r = z3.And(*terms)
+            return SymBool(r if isinstance(op, ast.Eq) else z3.Not(r))
         if is_sym(a) or is_sym(b):
             # a symbolic int never equals a str / None / list
             if not (isinstance(a, (SymInt, int)) and isinstance(b, (SymInt, int))) or isinstance(a, bool) and False:
@@ -580,6 +632,10 @@ class Executor:
         kwargs = {k.arg: self.expr(k.value, env, globs) for k in e.keywords}
         if isinstance(e.func, ast.Name):
             name = e.func.id
+            if name in self.opaque_constructors:
+                return NativeNamespace(_class=name, _args=args, _kwargs=kwargs)
+            if name in env and isinstance(env[name], _Closure):
+                return env[name](*args)
             if name in self.funcs and name not in env:
                 return self.call_function(name, args, kwargs)
             return self.builtin(name, args)
@@ -632,7 +688,9 @@ class Executor:
                 raise PyRaise(type(ex).__name__)
         if name == "str":
             if is_sym(args[0]):
-                return ("symstr", args[0])
+                return SymText("dec", args[0], 0)
+            if isinstance(args[0], SymText):
+                return args[0]
             return str(args[0])
         if name == "len":
             if is_sym(args[0]):
@@ -670,6 +728,18 @@ class Executor:
             return list(args[0]) if args else []
         if name == "print":
             return None
+        if name in ("map", "filter"):
+            fn, it = args[0], args[1]
+            if is_sym(it):
+                raise Unmodelled("map over symbolic")
+            out = []
+            for x in it:
+                r = fn(x) if isinstance(fn, _Closure) else self.native(fn, [x], {})
+                if name == "map":
+                    out.append(r)
+                elif self.truth(r):
+                    out.append(x)
+            return out
         if name == "sum":
             vals = list(args[0])
             if not any(is_sym(v) for v in vals):
@@ -678,7 +748,9 @@ class Executor:
             for v in vals:
                 r = r + lift(v)
             return SymInt(r)
-        if name == "hex" and not is_sym(args[0]):
+        if name == "hex":
+            if is_sym(args[0]):
+                return SymText("hex", args[0], 0)
             return hex(args[0])
         if name in ("dict", "set", "tuple", "sorted") and not any(is_sym(a) for a in args):
             return {"dict": dict, "set": set, "tuple": tuple, "sorted": sorted}[name](*args)
